@@ -504,6 +504,23 @@ theorem visible_text_clean (chunks : List Str) (s : Str) (hcontract : chunks.fla
   rw [hraw] at hclean
   rw [strip_processLines_all colour_ok raw hclean, hflat, hcontract]
 
+/-- The whole reply, any text whose wrapped lines start cleanly: the messages delivered (first answer,
+then `more`, see `more_protocol`) are, in order, the lines `l_k` each followed by the count of messages
+that remain (`more_counts_delivery`), and the visible text of the lines, concatenated, is the visible
+text of the (truncated, munged) reply. -/
+theorem reply_text_clean (e : Env) (cfg : Cfg) (chunks : List Str) (s : Str) (allowed : Nat) (s1 : Str)
+    (hprep : prepare e cfg s = some (allowed, s1, false))
+    (hcontract : chunks.flatten = munge s1)
+    (h4 : suffixReserve (blen s1) + (parse s1).maxSize + 4 ≤ allowed)
+    (hclean : cleanWrap chunks s1 (allowed - suffixReserve (blen s1)) = true) :
+    ∃ lines, (lines.map stripFormatting).flatten = stripFormatting (munge s1) ∧
+      (∀ l ∈ lines, blen l ≤ allowed - suffixReserve (blen s1)) ∧
+      reply e cfg chunks s = .sent ((deliveryOrder e lines).take (max cfg.instant 1))
+        (if (deliveryOrder e lines).length < max cfg.instant 1 then none
+         else some ((deliveryOrder e lines).drop (max cfg.instant 1)).reverse) := by
+  obtain ⟨lines, h1, h2, h3⟩ := visible_text_clean chunks s1 hcontract (allowed - suffixReserve (blen s1)) (by omega) hclean
+  exact ⟨lines, h3, h2, reply_chunked e cfg chunks s allowed s1 hprep (by omega) lines h1⟩
+
 def clText : Str := [Char.ofNat 3, '4'] ++ "red ".toList ++ [Char.ofNat 3, '0', ',', '1'] ++ "white on black".toList ++
   [Char.ofNat 15] ++ " plain".toList
 def clChunks : List Str := [[Char.ofNat 3, '4'] ++ "red".toList, " ".toList,
